@@ -1,11 +1,11 @@
 #!/bin/sh
-# tools/try_revert.sh "<commit subject substring>" Cxx : reverse-apply a fix commit in /repo's working tree,
-# run the check, restore the tree.  Used to confirm that each repaired defect is detected when it returns.
+# tools/try_revert.sh "<commit subject substring>" Cxx [check args]: reverse-apply a fix commit in /repo's
+# working tree, run the check, restore the tree. Confirms that a repaired defect is detected when it returns.
+# tools/try_patch.sh does the same for an arbitrary patch file. Both hold the exclusive repo lock, so
+# concurrently running checks (which hold it shared) never see the modified tree.
 set -u
 h=$(git -C /repo log --format='%h %s' | grep -F "$1" | head -1 | cut -d' ' -f1)
 [ -n "$h" ] || { echo "no such commit"; exit 2; }
-git -C /repo show "$h" | git -C /repo apply -R || exit 2
-(cd /verif && ./check "$2" ${3:-})
-rc=$?
-git -C /repo checkout -- .
-echo "rc=$rc"
+shift
+git -C /repo show "$h" > /verif/.work/revert.$$.diff
+exec /verif/tools/try_patch.sh -R /verif/.work/revert.$$.diff "$@"
